@@ -10,7 +10,7 @@
 //!     unique markers, through (a) subsets and orders of the 13 default rules, (b) remove_spaces
 //!     followed by line-neutral rules, (c) append_text_comment at the start (known shift):
 //!     every marker found in the output text must be on its input line (+ shift).
-use super::c03::{
+use super::c03::{ConfigMode, 
     compare_run, encode_trace, lay_out, model_replay, real_process, Acc, Layout, ProgGen,
 };
 use crate::model::Model;
@@ -230,29 +230,20 @@ pub fn gen_marker_program(rng: &mut Rng) -> MarkerProgram {
 // ------------------------------------------------------------------------------------------
 
 /// Run the real pipeline on a multi-file in-memory project; `files[0]` is the entry point.
-pub fn real_bundle(files: &[(String, String)], rules: &[String]) -> Result<String, String> {
+pub fn real_bundle(files: &[(String, String)], rules: &[String], mode: ConfigMode) -> Result<String, String> {
     let resources = darklua_core::Resources::from_memory();
     for (path, content) in files {
         resources.write(path, content).map_err(|e| format!("{:?}", e))?;
     }
+    // the generator is selected by the mode (configuration, default, override, configuration file)
     let config_text = format!(
-        "{{generator: 'retain_lines', bundle: {{require_mode: 'path'}}, rules: [{}]}}",
+        "{{bundle: {{require_mode: 'path'}}, rules: [{}]}}",
         rules.iter().map(|r| rule_json(r)).collect::<Vec<_>>().join(", ")
     );
-    let config: darklua_core::Configuration = json5::from_str(&config_text).map_err(|e| e.to_string())?;
     let entry = files[0].0.clone();
-    let result = std::panic::catch_unwind(std::panic::AssertUnwindSafe(|| {
-        darklua_core::process(
-            &resources,
-            darklua_core::Options::new(&entry)
-                .with_output("out/bundle.lua")
-                .with_configuration(config),
-        )
-    }));
-    match result {
-        Err(_) => Err("panic".to_owned()),
-        Ok(Err(e)) => Err(format!("error: {}", e)),
-        Ok(Ok(tree)) => {
+    match super::c03::process_with_mode(&resources, &entry, "out/bundle.lua", &config_text, mode)? {
+        Err(e) => Err(format!("error: {}", e)),
+        Ok(tree) => {
             let errors = tree.collect_errors();
             if !errors.is_empty() {
                 return Err(format!(
@@ -361,7 +352,7 @@ fn recomputes_literals(rules: &[String]) -> bool {
 }
 
 fn oracle_fails(code: &str, config: &str, shift: usize) -> Option<String> {
-    let (out, _) = real_process(code, config).ok()?;
+    let (out, _) = super::c03::real_process_mode(code, config, ConfigMode::of_case(&(code, &config.to_owned()))).ok()?;
     marker_failure(code, &out, shift, config.contains("compute_expression"))
 }
 
@@ -611,7 +602,10 @@ pub fn check_case(
     let input = json!({"kind": "program", "code": code, "config": config, "shift": pipeline.shift,
         "pipeline": pipeline.kind,
         "removal_flags": {"multiline_comment": flags.multiline_comment, "out_of_order": flags.out_of_order}});
-    let (out, trace) = match real_process(code, &config) {
+    // how retain_lines is selected / where the configuration comes from is part of the case
+    let mode = ConfigMode::of_case(&(code, &config));
+    acc.hist("configuration", mode.name());
+    let (out, trace) = match super::c03::real_process_mode(code, &config, mode) {
         Ok(x) => x,
         Err(e) => {
             acc.hist("case", if e == "panic" { "panic (C12's business)" } else { "not processed (parse/rule error)" });
@@ -971,6 +965,8 @@ pub struct BundleCase {
     /// files[0] is the entry point
     pub files: Vec<(String, String)>,
     pub rules: Vec<String>,
+    /// how retain_lines is selected and where the configuration comes from
+    pub mode: ConfigMode,
 }
 
 pub fn gen_bundle(rng: &mut Rng) -> BundleCase {
@@ -1030,7 +1026,8 @@ pub fn gen_bundle(rng: &mut Rng) -> BundleCase {
         2 => vec!["remove_spaces".into(), "remove_comments".into()],
         _ => vec!["remove_comments".into()],
     };
-    BundleCase { files: all, rules }
+    let mode = *rng.pick(&ConfigMode::ALL);
+    BundleCase { files: all, rules, mode }
 }
 
 /// Lines a bundled file takes in the output: where it ends (a final newline = the file ends on
@@ -1119,8 +1116,8 @@ fn has_duplicate_require(files: &[(String, String)]) -> bool {
 }
 
 fn check_bundle(acc: &mut Acc, case: &BundleCase, known: &[Value]) -> bool {
-    let input = json!({"kind": "bundle", "files": case.files, "rules": case.rules});
-    let out = match real_bundle(&case.files, &case.rules) {
+    let input = json!({"kind": "bundle", "files": case.files, "rules": case.rules, "config_mode": case.mode.name()});
+    let out = match real_bundle(&case.files, &case.rules, case.mode) {
         Ok(o) => o,
         Err(e) => {
             acc.hist("bundle", if e == "panic" { "panic" } else { "not processed" });
@@ -1130,6 +1127,23 @@ fn check_bundle(acc: &mut Acc, case: &BundleCase, known: &[Value]) -> bool {
             return false;
         }
     };
+    acc.hist("bundle configuration", case.mode.name());
+    // independent of the markers: with retain_lines every module keeps its lines, so the bundle
+    // has at least as many lines as the modules together
+    let module_lines: usize = case.files.iter().skip(1).map(|(_, content)| total_lines(content)).sum();
+    if out.matches('\n').count() + 1 < module_lines {
+        acc.violation(Violation {
+            kind: "oracle".into(),
+            check: "bundle-line-count".into(),
+            what: format!(
+                "the bundle has {} lines, the bundled modules alone have {}: the modules were not written with their lines ({}); output {:?}",
+                out.matches('\n').count() + 1, module_lines, case.mode.name(), out
+            ),
+            input: input.clone(),
+            failing_input_found: true,
+        });
+        return true;
+    }
     match bundle_failure(&case.files, &out) {
         Ok(checked) => {
             acc.hist("bundle", &format!("{} modules, markers shifted by the known amounts", case.files.len() - 1));
@@ -1188,7 +1202,8 @@ pub fn run(report: &mut Report, replay: Option<&str>) {
             let rules: Vec<String> = input["rules"].as_array().map(|a| a.iter()
                 .filter_map(|r| r.as_str().map(|s| s.to_owned())).collect()).unwrap_or_default();
             let mut acc = Acc::default();
-            check_bundle(&mut acc, &BundleCase { files, rules }, &known);
+            let mode = input["config_mode"].as_str().and_then(ConfigMode::from_name).unwrap_or(ConfigMode::ApiRetainLines);
+            check_bundle(&mut acc, &BundleCase { files, rules, mode }, &known);
             acc.flush(report);
             return;
         }
@@ -1211,7 +1226,7 @@ pub fn run(report: &mut Report, replay: Option<&str>) {
             let rule_names: Vec<String> = vec![rules_text.to_owned()];
             let regions = known_region(code, &rule_names, &known, flags);
             let mut acc = Acc::default();
-            match real_process(code, config) {
+            match super::c03::real_process_mode(code, config, ConfigMode::of_case(&(code, &config.to_owned()))) {
                 Ok((out, _)) => {
                     let failures = marker_failures(code, &out, shift, config.contains("compute_expression"));
                     let excused = |m: &String| regions.iter().any(|(_, names)| names.as_ref().map(|n| n.contains(m)).unwrap_or(true));
@@ -1239,7 +1254,8 @@ pub fn run(report: &mut Report, replay: Option<&str>) {
         let files: Vec<(String, String)> = v["files"].as_array().unwrap().iter()
             .map(|f| (f[0].as_str().unwrap().to_owned(), f[1].as_str().unwrap().to_owned())).collect();
         let rules: Vec<String> = v["rules"].as_array().map(|a| a.iter().map(|r| r.as_str().unwrap().to_owned()).collect()).unwrap_or_default();
-        match real_bundle(&files, &rules) {
+        let mode = v["config_mode"].as_str().and_then(ConfigMode::from_name).unwrap_or(ConfigMode::ApiRetainLines);
+        match real_bundle(&files, &rules, mode) {
             Ok(out) => {
                 for (i, l) in out.lines().enumerate() {
                     eprintln!("{:3} | {}", i + 1, l);
@@ -1264,7 +1280,7 @@ pub fn run(report: &mut Report, replay: Option<&str>) {
                 .filter_map(|f| Some((f[0].as_str()?.to_owned(), f[1].as_str()?.to_owned()))).collect();
             let rules: Vec<String> = w["rules"].as_array().map(|a| a.iter()
                 .filter_map(|r| r.as_str().map(|s| s.to_owned())).collect()).unwrap_or_default();
-            if let Ok(out) = real_bundle(&files, &rules) {
+            if let Ok(out) = real_bundle(&files, &rules, ConfigMode::ApiRetainLines) {
                 if let Err(what) = bundle_failure(&files, &out) {
                     let markers = find_markers(&out);
                     let as_recorded = w["output_lines_of"].as_object().map(|o| o.iter().all(|(m, l)|
@@ -1297,7 +1313,7 @@ pub fn run(report: &mut Report, replay: Option<&str>) {
         }
         if let (Some(code), Some(config)) = (w["code"].as_str(), w["config"].as_str()) {
             let shift = w["shift"].as_u64().unwrap_or(0) as usize;
-            match real_process(code, config) {
+            match super::c03::real_process_mode(code, config, ConfigMode::of_case(&(code, &config.to_owned()))) {
                 Ok((out, _)) => match marker_failure(code, &out, shift, config.contains("compute_expression")) {
                     Some(what) => {
                         if w["output_now"].as_str().map(|o| o == out).unwrap_or(true) {
@@ -1402,9 +1418,14 @@ pub fn run(report: &mut Report, replay: Option<&str>) {
                 ("src/c.lua".to_owned(), "m32 's33'\nm34 { 's35',\n  g36 }\nreturn g31\n".to_owned()),
             ],
             rules,
+            mode: ConfigMode::ApiDefault,
         };
-        if !check_bundle(&mut acc, &case, &known) {
-            acc.notes.push("fixed bundle not processed".to_owned());
+        // every way of selecting retain_lines / of providing the configuration
+        for mode in ConfigMode::ALL {
+            let case = BundleCase { files: case.files.clone(), rules: case.rules.clone(), mode };
+            if !check_bundle(&mut acc, &case, &known) {
+                acc.notes.push(format!("fixed bundle not processed ({})", mode.name()));
+            }
         }
     }
     acc.flush(report);
